@@ -64,6 +64,74 @@ def fp_compare_invariants():
     return out
 
 
+def systematic_fp(rng):
+    """floating point value source x clock operand x use position x way the template enters the system"""
+    GD = ("clock x; clock y; hybrid clock hx; double d; int i; const int N = 2; broadcast chan bc; const double D = 1.5; "
+          "typedef double real; real r; typedef struct { double w; int n; } SD; SD sd; double da[2]; const double CDA[2] = { 0.5, 1.5 }; "
+          "double fd() { return 1.5; } const real CR = 2.5; meta double md;")
+    # (name, text, extra template parameter or None, argument, usable in an initialiser)
+    values = [("literal", "1.5", None, None, True), ("double-var", "d", None, None, False), ("double-expr", "(d * 2.0)", None, None, False),
+              ("const-double", "D", None, None, True), ("typedef-double-var", "r", None, None, False), ("const-typedef-double", "CR", None, None, True),
+              ("struct-field", "sd.w", None, None, False), ("array-element", "da[1]", None, None, False), ("const-array-element", "CDA[1]", None, None, True),
+              ("function-result", "fd()", None, None, False), ("int-times-double", "(i * 0.5)", None, None, False), ("const-expr", "(D + 1.0)", None, None, True),
+              ("meta-double", "md", None, None, False), ("ref-double-parameter", "pd", "double &pd", "d", False),
+              ("const-double-parameter", "cpd", "const double cpd", "1.5", False), ("negated-literal", "-1.5", None, None, True),
+              ("inline-if-double", "(i > 0 ? 1.5 : 2.5)", None, None, False)]
+    clocks = [("global-clock", "x", None, None, ""), ("local-clock", "lx", None, None, "clock lx;"), ("clock-difference", "x - y", None, None, ""),
+              ("local-difference", "lx - x", None, None, "clock lx;"), ("ref-clock-parameter", "px", "clock &px", "x", "")]
+    out = []
+    for vn, vt, vpar, varg, vinit in values:
+        for cn, ct, cpar, carg, ctd in clocks:
+            uses = []
+            for op in ("<", "<=", "==", ">=", ">"):
+                uses.append(("guard/%s" % op, {"guard": "%s %s %s" % (ct, op, vt)}))
+                uses.append(("guard-reversed/%s" % op, {"guard": "%s %s %s" % (vt, op, ct)}))
+            uses.append(("guard-conjunct", {"guard": "i >= 0 && %s < %s" % (ct, vt)}))
+            for op in ("<", "<="):
+                uses.append(("invariant/%s" % op, {"inv": "%s %s %s" % (ct, op, vt)}))
+            if "-" not in ct:
+                uses.append(("update", {"update": "%s = %s" % (ct, vt)}))
+                uses.append(("update-second", {"update": "i = 1, %s = %s" % (ct, vt)}))
+            # sample the uses (the full product is in the thorough tier through more seeds): two per (value, clock)
+            for un, kw in rng.sample(uses, 3):
+                pars = [p for p in (vpar, cpar) if p]
+                args = [a for a, p in ((varg, vpar), (carg, cpar)) if p]
+                for how in ("plain", "free-parameter", "partial-instance", "bound-instance"):
+                    plist = list(pars)
+                    if how == "plain":
+                        if plist:
+                            sysl = "P1 = P(%s);\nsystem P1;" % ", ".join(args)
+                        else:
+                            sysl = "system P;"
+                    elif how == "free-parameter":
+                        plist = ["const int[0,2] id"] + plist
+                        if pars:
+                            sysl = "Q(const int[0,2] fid) = P(fid, %s);\nsystem Q;" % ", ".join(args)
+                        else:
+                            sysl = "system P;"
+                    elif how == "partial-instance":
+                        plist = ["const int[0,2] id", "const int k"] + plist
+                        sysl = "Q(const int[0,2] fid) = P(%s);\nsystem Q;" % ", ".join(["fid", "3"] + args)
+                    else:
+                        plist = ["const int[0,2] id"] + plist
+                        sysl = "P1 = P(%s);\nsystem P1;" % ", ".join(["1"] + args)
+                    t = templ("P", tdecl=ctd, params=", ".join(plist), **kw)
+                    out.append(("fp-systematic", "%s/%s/%s/%s" % (vn, cn, un.split("/")[0], how), model(GD, [t], sysl), {0}))
+        if vinit:
+            out.append(("fp-systematic", "%s/global-clock-init" % vn, model(GD + " clock z = %s;" % vt, [templ("P")], "system P;"), {0}))
+            out.append(("fp-systematic", "%s/local-clock-init" % vn, model(GD, [templ("P", tdecl="clock lz = %s;" % vt)], "system P;"), {0}))
+            out.append(("fp-systematic", "%s/local-clock-init/free-parameter" % vn,
+                        model(GD, [templ("P", tdecl="clock lz = %s;" % vt, params="const int[0,2] id")], "system P;"), {0}))
+    # the other symbolic restrictions entering the system through a process set / partial instance
+    for fname, kw in (("rate", {"inv": "x' == 2"}), ("fp-assign-in-function", {"tdecl": "void f() { x = 1.5; }", "update": "f()"})):
+        out.append(("instantiation", fname + "/free-parameter", model(GD, [templ("P", params="const int[0,2] id", **kw)], "system P;"), {0}))
+        out.append(("instantiation", fname + "/partial-instance",
+                    model(GD, [templ("P", params="const int[0,2] id, const int k", **kw)], "Q(const int[0,2] fid) = P(fid, 3);\nsystem Q;"), {0}))
+        out.append(("instantiation", fname + "/free-parameter-and-bound-instance",
+                    model(GD, [templ("P", params="const int[0,2] id", **kw), templ("H", params="const int[0,2] id")], "H1 = H(1);\nsystem P, H1;"), {0}))
+    return out
+
+
 def run(rep, tier, seed):
     rep.level = "fault_enumeration"
     rng = random.Random(seed * 1000003 + 17)
@@ -139,6 +207,7 @@ def run(rep, tier, seed):
                 ("control", "hybrid-fp-update", model(GDECL, [templ("P", update="hx = 1.5")], sys1), set()),
                 ("control", "int-clock-init", model(GDECL + " clock z = 2;", [templ("P")], sys1), set())]
     items += controls
+    items += systematic_fp(rng)
     # metamorphic: uninstantiated template carrying the feature must not change the verdict of a feature-free model
     feature_templates = [templ("U", guard="x < 1.5"), templ("U", update="x = 1.5"), templ("U", inv="x' == 2"), templ("U", tdecl="clock lz = 0.5;"),
                          templ("U", inv="x <= 1.5")]
